@@ -17,8 +17,11 @@ B_WARN = ('C07',)
 def units(tier, seed):
     us = cases.fault_units(tier, seed, with_prims=True)
     if tier == "quick":
-        # quick: the session-count / password-session variants are left to C08 (same inputs, warn mode) and C03 (strict)
-        us = [u for u in us if u["variant"] not in ("sess0", "sess4", "decrypt-pw", "failed-flag")]
+        # quick: for the session-count / password-session variants only the well-formed base cases are compared in the two
+        # modes (the faults on them are left to C08 (same inputs, warn mode) and C03 (strict))
+        for u in us:
+            if u["variant"] in ("sess0", "sess4", "decrypt-pw", "failed-flag"):
+                u["base_only"] = True
     for u in us:
         u["seed"], u["tier"] = seed, tier
         if tier == "quick" and u["kind"] == "struct":
@@ -95,7 +98,7 @@ def run_unit(unit):
         return bscope.run_b_unit(unit, strict_own=B_STRICT, warn_props=B_WARN)
     acc = Acc()
     loader.load()
-    fams = ["size", "value", "length", "subst"]
+    fams = [] if unit.get("base_only") else ["size", "value", "length", "subst"]
 
     def on_case(case):
         from ..ref.decode import decode
